@@ -131,6 +131,12 @@ def suiteJ (t : Trace) (r : Registry) (exCode exT exF : List Nat) : Json :=
     ("lis", toJson (lineIsCovered t r)),
     ("cis", toJson (checkedIsCovered t r))]
 
+/-- The `_predicate_fitness` summands one by one (= the branch fitness restricted to a single branch):
+`[p, _predicate_fitness(p, true_distances, t), _predicate_fitness(p, false_distances, t)]`. -/
+def summandsJ (t : Trace) (r : Registry) : Json :=
+  Json.arr (r.predIds.map (fun p => Json.arr #[toJson p, exJ ratJ (predicateFitness p t.dT t),
+    exJ ratJ (predicateFitness p t.dF t)])).toArray
+
 def goalsJ (t : Trace) (r : Registry) : Json :=
   Json.mkObj [
     ("codes", Json.arr (r.codeIds.map (fun c => Json.arr #[toJson c,
@@ -152,7 +158,7 @@ def runCase (c : Case) : Except String Json := do
     -- test-case level functions call `analyze_results([result])` on the (already merged) trace
     let t1 := analyze [t]
     pure (Json.mkObj [("trace", traceJ t), ("suite", suiteJ t r c.exCode c.exT c.exF),
-      ("case_level", suiteJ t1 r [] [] []), ("goals", goalsJ t r)])
+      ("case_level", suiteJ t1 r [] [] []), ("goals", goalsJ t r), ("summands", summandsJ t r)])
   | "c11" =>
     if c.perm.length != ts.length || c.perm.any (· ≥ ts.length) || c.split > ts.length then
       throw "bad perm/split"
@@ -161,6 +167,7 @@ def runCase (c : Case) : Except String Json := do
     let grouped := merge (analyze (ts.take c.split)) (analyze (ts.drop c.split))
     pure (Json.mkObj [
       ("prefix", Json.arr ((prefixes ts).map (fun p => suiteJ (analyze p) r c.exCode c.exT c.exF)).toArray),
+      ("prefix_summands", Json.arr ((prefixes ts).map (fun p => summandsJ (analyze p) r)).toArray),
       ("final", traceJ t),
       ("permuted", traceJ (analyze permuted)),
       ("grouped", traceJ grouped),
